@@ -165,13 +165,13 @@ def register(G):
         lambda o, b: (lambda f, gr, lb: __import__("pyttb").gcp.fg.evaluate(o.M, o.X, None, f, gr))(*objective(b)))
     reg(h, "gcp.fg.evaluate", "dense,mask", lambda b: dict(M=b.K(), X=b.T(), W=b.W().data),
         lambda o, b: (lambda f, gr, lb: __import__("pyttb").gcp.fg.evaluate(o.M, o.X, o.W, f, gr))(*objective(b)))
-    # gcp.fg_est.estimate(model, ...) with lambda_check (default) and non-unit weights normalises the caller's model in place: C05-N12
+    # gcp.fg_est.estimate(model, ...) with lambda_check (default) and non-unit weights works on a normalised COPY of the caller's
+    # model since dc891f8 (was finding C05-N12, repaired): ordinary rows, every operand judged in full
     est_b = lambda b, unit=False: dict(M=(b.ttb.ktensor(b.fm()) if unit else b.K()), s=b.subs(), v=b.vals()[:, 0].copy(), w=np.ones(len(b.subs_list())))
     est_c = lambda o, b, **kw: (lambda f, gr, lb: __import__("pyttb").gcp.fg_est.estimate(o.M, o.s, o.v, o.w, f, gr, **kw))(*objective(b))
-    reg(h, "gcp.fg_est.estimate", "samples,lambda_check,non-unit-weights | model:changed", est_b, est_c, only=("M",), aspects=("changed",), shapes=ALG1)
-    FINDING_CLASSES.setdefault("C05-N12", []).append(("helpers.gcp.fg_est.estimate", "samples,lambda_check,non-unit-weights | model:changed"))
-    reg(h, "gcp.fg_est.estimate", "samples,lambda_check,non-unit-weights | model:result-independent", est_b, est_c, only=("M",), aspects=("shared",), shapes=ALG1)
-    reg(h, "gcp.fg_est.estimate", "samples,lambda_check,non-unit-weights | sample-arrays", est_b, est_c, but=("M",))
+    reg(h, "gcp.fg_est.estimate", "samples,lambda_check,non-unit-weights | everything", est_b, est_c)
+    reg(h, "gcp.fg_est.estimate", "samples,lambda_check,non-unit-weights,second-evaluation-same-model | everything",
+        lambda b: (lambda d: (est_c(AD(d), b), d)[1])(est_b(b)), est_c, shapes=ALG1, layouts=False)
     reg(h, "gcp.fg_est.estimate", "samples,lambda_check,unit-weights | everything", lambda b: est_b(b, True), est_c)
     reg(h, "gcp.fg_est.estimate", "samples,lambda_check=False | everything", est_b, lambda o, b: est_c(o, b, lambda_check=False))
     reg(h, "gcp.samplers.uniform", "dense", lambda b: dict(X=b.T()), lambda o, b: __import__("pyttb").gcp.samplers.uniform(o.X, 4))
@@ -185,22 +185,18 @@ def register(G):
     reg(h, "gcp.samplers.nonzeros", "sparse", lambda b: dict(X=b.S()), lambda o, b: __import__("pyttb").gcp.samplers.nonzeros(o.X, 2))
     reg(h, "gcp.samplers.nonzeros", "sparse,all(with_replacement=False)", lambda b: dict(X=b.S()),
         lambda o, b: __import__("pyttb").gcp.samplers.nonzeros(o.X, o.X.nnz, with_replacement=False))
-    # cp_apr.tt_loglikelihood(Data, Model) normalises the caller's Model in place: new finding C05-N11 (split like the others)
+    # cp_apr.tt_loglikelihood(Data, Model) evaluates on a normalised COPY of the caller's Model since c01a61b (was finding C05-N11,
+    # repaired): ordinary rows, every operand judged in full
     import importlib
     CA = importlib.import_module("pyttb.cp_apr")          # (the attribute pyttb.cp_apr is the FUNCTION of that name)
     ll = lambda b, sparse=False: dict(X=(b.S() if sparse else b.T()), M=b.K())
     for dn, sp in (("dense", False), ("sparse", True)):
-        reg(h, "cp_apr.tt_loglikelihood", f"{dn} | model:changed", lambda b, sp=sp: ll(b, sp), lambda o: CA.tt_loglikelihood(o.X, o.M),
-            only=("M",), aspects=("changed",), shapes=ALG1)
-        FINDING_CLASSES.setdefault("C05-N11", []).append(("helpers.cp_apr.tt_loglikelihood", f"{dn} | model:changed"))
-        reg(h, "cp_apr.tt_loglikelihood", f"{dn} | data", lambda b, sp=sp: ll(b, sp), lambda o: CA.tt_loglikelihood(o.X, o.M), but=("M",), shapes=ALG1)
-        reg(h, "cp_apr.tt_loglikelihood", f"{dn} | model:result-independent", lambda b, sp=sp: ll(b, sp), lambda o: CA.tt_loglikelihood(o.X, o.M),
-            only=("M",), aspects=("shared",), shapes=ALG1, layouts=False)
-        # second evaluation of the same model (already normalised with the weights in mode 0): re-normalising still rewrites digits
-        pc2 = f"{dn},second-evaluation-same-model | model:changed"
-        reg(h, "cp_apr.tt_loglikelihood", pc2, lambda b, sp=sp: (lambda d: (CA.tt_loglikelihood(d["X"], d["M"]), d)[1])(ll(b, sp)),
-            lambda o: CA.tt_loglikelihood(o.X, o.M), only=("M",), aspects=("changed",), shapes=ALG1, layouts=False)
-        FINDING_CLASSES["C05-N11"].append(("helpers.cp_apr.tt_loglikelihood", pc2))
+        reg(h, "cp_apr.tt_loglikelihood", f"{dn} | everything", lambda b, sp=sp: ll(b, sp), lambda o: CA.tt_loglikelihood(o.X, o.M), kind="scalar")
+        reg(h, "cp_apr.tt_loglikelihood", f"{dn},second-evaluation-same-model | everything", lambda b, sp=sp: (lambda d: (CA.tt_loglikelihood(d["X"], d["M"]), d)[1])(ll(b, sp)),
+            lambda o: CA.tt_loglikelihood(o.X, o.M), kind="scalar", shapes=ALG1, layouts=False)
+        reg(h, "cp_apr.tt_loglikelihood", f"{dn},model-built-copy=False-on-caller-arrays | everything",
+            lambda b, sp=sp: (lambda f, w: dict(X=(b.S() if sp else b.T()), f=f, w=w, M=b.ttb.ktensor(f, w, copy=False)))([np.asfortranarray(x) for x in b.fm()], np.array([2.0, 3.0])),
+            lambda o: CA.tt_loglikelihood(o.X, o.M), kind="scalar", shapes=ALG1, layouts=False)
     reg(h, "cp_apr.calculate_pi", "dense", lambda b: dict(X=b.T(), M=b.K()), lambda o, b: CA.calculate_pi(o.X, o.M, 2, 0, b.N))
     reg(h, "cp_apr.calculate_pi", "sparse", lambda b: dict(X=b.S(), M=b.K()), lambda o, b: CA.calculate_pi(o.X, o.M, 2, 0, b.N))
     reg(h, "cp_apr.calculate_phi", "dense", lambda b: dict(X=b.T(), M=b.K()),
